@@ -28,12 +28,18 @@ def claimed():
 
 def run_check(prop, tree):
     env = dict(os.environ, VERIF_REPO=tree, VERIF_OUT="/tmp/mut/out", VERIF_FACTS_KEEP="4")
-    rc, out = sh("./check %s" % prop, cwd=VERIF, env=env)
+    rc, out = sh("./check %s --tier %s" % (prop, TIER), cwd=VERIF, env=env)
     keys = set(re.findall(r"rule=\S+ key=(.*?)(?: at \S+)?$", out, re.M))
     return rc, keys, out
 
+TIER = "quick"
+
+
 def main():
-    args = [a for a in sys.argv[1:] if not a.startswith("--")]
+    global TIER
+    if "--tier" in sys.argv:
+        TIER = sys.argv[sys.argv.index("--tier") + 1]
+    args = [a for a in sys.argv[1:] if not a.startswith("--") and a != TIER]
     all_checks = "--all-checks" in sys.argv
     ensure_wt()
     props = claimed()
@@ -51,7 +57,10 @@ def main():
         tag = "%s/%s" % (pid, k)
         if args and pid not in args and tag not in args:
             continue
-        patch = os.path.join(d, "patch.diff")
+        # patch.head.diff = the same change re-based onto the repaired tree (when a later fix touched the same lines)
+        patch = os.path.join(d, "patch.head.diff")
+        if not os.path.exists(patch):
+            patch = os.path.join(d, "patch.diff")
         which = "head"
         sh("git checkout -q -- . && git clean -qfd", cwd=WT["head"])
         rc, o = sh("git apply --check %s" % patch, cwd=WT["head"])
@@ -59,7 +68,7 @@ def main():
             which = "pinned"
             sh("git checkout -q -- . && git clean -qfd", cwd=WT["pinned"])
         todo = props if all_checks else [p for p in props if p == pid]
-        r = dict(applied_on=which, checks={})
+        r = dict(applied_on=which, patch=os.path.basename(patch), tier=TIER, checks={})
         for p in todo:
             b = baseline(which, p)
         rc, o = sh("git apply %s" % patch, cwd=WT[which])
